@@ -197,10 +197,11 @@ CHECKS["C16"] = dict(
     jobs=[
         dict(pkg="pkg/gcc", entry="HC16Publish", require_covers=["callback fired", "loss controller has adapted", "changed without callback"]),
         dict(pkg="pkg/gcc", entry="HC16RateStep", require_covers=["step", "stats written"], tiers=["thorough"], thorough=dict(timeout=3000)),
+        dict(pkg="pkg/gcc", entry="HC16Feedback", params=dict(concretenow=1, packets=3), require_covers=["feedback processed"], optional_covers=["callback fired"], thorough=dict(params=dict(concretenow=1, packets=12))),
         dict(pkg="pkg/gcc", entry="HC16Lifecycle", params=dict(concretenow=1, feedbacks=2), require_covers=["feedback fed", "closed"], thorough=dict(params=dict(concretenow=1, feedbacks=3))),
     ],
     level_note="PARTIAL CLAIM: only the integer envelope of the estimator (clamps, min, publication to getter/pacer/callback) from arbitrary controller states; nothing about estimator quality, the Kalman/threshold/EMA numerics, liveness of the channel pipeline under feedback that carries acknowledgements. Trusted: go/ssa, gosym, z3/cvc5.",
-    bounds=dict(quick="one SendSideBWE.onDelayUpdate from an arbitrary state: any 0 < min <= initial <= max < 2^30, delay target anywhere in [min,max], loss controller bitrate at its initial value or anywhere in its private range; callback goroutine run to completion. Lifecycle: the real estimator (goroutine pipeline; NoOp or leaky bucket pacer) fed 2 feedback packets that acknowledge nothing (empty RFC 8888 report with any timestamp, TWCC feedback with status count 0, a PLI): accepted without blocking, target within bounds, Close returns, WriteRTCP after Close fails with ErrSendSideBWEClosed",
+    bounds=dict(quick="one SendSideBWE.onDelayUpdate from an arbitrary state: any 0 < min <= initial <= max < 2^30, delay target anywhere in [min,max], loss controller bitrate at its initial value or anywhere in its private range; callback goroutine run to completion. Lifecycle: the real estimator (goroutine pipeline; NoOp or leaky bucket pacer) fed 2 feedback packets that acknowledge nothing (empty RFC 8888 report with any timestamp, TWCC feedback with status count 0, a PLI): accepted without blocking, target within bounds, Close returns, WriteRTCP after Close fails with ErrSendSideBWEClosed. End to end with concrete data: 3 packets with the TWCC extension written through AddStream (deterministic clock), one TWCC feedback acknowledging all of them with arrival spacing 250 us / 5 ms / 60 ms: WriteRTCP returns, the goroutine pipeline settles, the target is positive and within bounds, a fired callback carries the getter's value (concrete floats: this job decides no numeric claim)",
                 thorough="plus one rateController.onDelayStats step from an arbitrary state (any target in bounds, received rate < 2^40, RTT, elapsed time, arbitrary float64 moving averages incl. NaN/Inf, any usage/state); math.Pow is an uninterpreted function"),
     outside=["numerical behaviour of the estimator", "WriteRTCP pipeline with feedback that acknowledges packets (float pipeline), both pacers' timing", "loss controller update arithmetic (only its private clamp invariant is assumed)"],
     assumptions=["time.Now nondeterministic non-decreasing", "math.Pow/Exp uninterpreted", "float->int conversion as go1.24/amd64"],
